@@ -49,3 +49,46 @@ func BadDecode(s string) (uint64, int, error) {
 	}
 	return n, i, nil
 }
+
+// Controls for UWRAP.
+
+// BadCountdown starts a byte countdown at s[i]-1: a zero byte wraps it to 255.
+func BadCountdown(s []byte) int {
+	records := 0
+	var left byte
+	for i := 0; i < len(s); i++ {
+		if left == 0 {
+			left = s[i] - 1
+		}
+		if s[i] == 0 {
+			left--
+			if left == 0 {
+				records++
+			}
+		}
+	}
+	return records
+}
+
+// GoodCountdown treats the small cases first.
+func GoodCountdown(s []byte) int {
+	records := 0
+	var left byte
+	for i := 0; i < len(s); i++ {
+		if left == 0 {
+			if s[i] <= 1 {
+				records++
+				continue
+			}
+			left = s[i] - 1
+			continue
+		}
+		if s[i] == 0 {
+			left--
+			if left == 0 {
+				records++
+			}
+		}
+	}
+	return records
+}
